@@ -62,6 +62,17 @@ def nsrc_of(case):
 
 
 def c03_case(args):
+    """Guarded: an operation that never returns is reported, the check goes on."""
+    from .driver import Hang, guarded  # noqa: PLC0415
+    try:
+        return guarded(30.0)(_c03_case)(args)
+    except Hang:
+        case = args[0] if isinstance(args, tuple) else args
+        return [("C03/" + case["cfg"]["tool"] + "/operation-never-returns",
+                 {"engine": "toolmachine", "cfg": case["cfg"], "nnext": case["nnext"], "observed": "30 s of CPU time without suspending or returning"})], 1
+
+
+def _c03_case(args):
     case, seed = args
     L = tm.load_lib()
     tool = case["cfg"]["tool"]
@@ -321,6 +332,17 @@ def expected_suspensions(o, susp, fl):
 
 
 def c17_case(args):
+    """Guarded: an operation that never returns is reported, the check goes on."""
+    from .driver import Hang, guarded  # noqa: PLC0415
+    try:
+        return guarded(30.0)(_c17_case)(args)
+    except Hang:
+        case = args[0] if isinstance(args, tuple) else args
+        return [("C17/" + case["cfg"]["tool"] + "/operation-never-returns",
+                 {"engine": "toolmachine", "cfg": case["cfg"], "nnext": case["nnext"], "observed": "30 s of CPU time without suspending or returning"})], 1
+
+
+def _c17_case(args):
     case, susp = args
     _patch_asyncio()
     L = tm.load_lib()
@@ -542,7 +564,18 @@ def check_c17(prop, tier, seed):
 # =========================================================================== C18
 
 
-def c18_case(case):
+def c18_case(args):
+    """Guarded: an operation that never returns is reported, the check goes on."""
+    from .driver import Hang, guarded  # noqa: PLC0415
+    try:
+        return guarded(30.0)(_c18_case)(args)
+    except Hang:
+        case = args[0] if isinstance(args, tuple) else args
+        return [("C18/" + case["cfg"]["tool"] + "/operation-never-returns",
+                 {"engine": "toolmachine", "cfg": case["cfg"], "nnext": case["nnext"], "observed": "30 s of CPU time without suspending or returning"})], 1
+
+
+def _c18_case(case):
     import asyncio  # noqa: PLC0415
 
     L = tm.load_lib()
